@@ -4279,6 +4279,9 @@ class Wallet(object):
                                      random_output_order=False)
         rt.version_int = t_import.version_int
         rt.version = t_import.version
+        # Keep the locktime of the imported transaction, it is part of what has been signed
+        rt.locktime = t_import.locktime
+        rt.txid = t_import.txid
         rt.verify()
         rt.size = len(rawtx)
         rt.calc_weight_units()
